@@ -17,3 +17,4 @@ import GeoVerif.Properties.C11
 import GeoVerif.Properties.C15
 import GeoVerif.Properties.C16
 import GeoVerif.Properties.C17
+import GeoVerif.Properties.C18
